@@ -13,7 +13,8 @@
         oreads    the columns whose optimal_step entry was read by this call (column 0 is never written)
         rej       the call rejects the step
         src       where the proposed step comes from:  <<"stab">> |dt|/2, <<"opt", j>> optimal_step[j],
-                  <<"min", j>> min(|dt|, optimal_step[j]),  <<"scaled", k, a>> optimal_step[k] * cost_per_step[a] / cost_per_step[k]
+                  <<"min", j>> min(|dt|, optimal_step[j]),  <<"scaled", k, a>> optimal_step[k] * cost_per_step[a] / cost_per_step[k],
+                  <<"min2", i, j>> min(optimal_step[i], optimal_step[j])  (accepted at the floor after the loop had rejected)
    The numbers (error estimate, cost comparisons) are the environment's: every pass receives
         ok        the stability check of the modified-midpoint sub-steps passed
         cls       the class of the error estimate: "conv" (<= 1), "hope" (> 1, may converge in the next column),
@@ -26,30 +27,32 @@
                      to another step size and possibly another system);
      AfterReject     a step accepted right after a rejected one raises neither the order above the converged column nor the step;
      FlagsFollow     previous_rejected is exactly "the last call rejected"; first_or_last_step is cleared by an accepted step only;
-     RejectHasSource a rejecting call proposes |dt|/2 or the optimal step of the (possibly lowered) target column.
+     RejectHasSource a rejecting call proposes |dt|/2 or the optimal step of the (possibly lowered) target column;
+     NoRejectAtFloor a call made at |dt| = min_dt never rejects (the caller would repeat the identical attempt for ever).
    GuardLow / CapHigh switch off the `target_iter > 1` guards and the `MIN(.., SeqLen - 2)` caps: the negative models.  *)
 EXTENDS Integers, FiniteSets, TLC
 
-CONSTANTS SeqLen, GuardLow, CapHigh
+CONSTANTS SeqLen, GuardLow, CapHigh, AcceptAtFloor
 
 Classes == {"conv", "hope", "hopeless", "huge", "nan"}
-VARIABLES target, prevRej, fol, pc, k, written, reads, oreads, rej, src, ktarget, calls
-vars == <<target, prevRej, fol, pc, k, written, reads, oreads, rej, src, ktarget, calls>>
+VARIABLES target, prevRej, fol, pc, k, written, reads, oreads, rej, src, ktarget, calls, floor
+vars == <<target, prevRej, fol, pc, k, written, reads, oreads, rej, src, ktarget, calls, floor>>
 
 Cap(x) == IF CapHigh /\ x > SeqLen - 2 THEN SeqLen - 2 ELSE x
 Gt1(t) == IF GuardLow THEN t > 1 ELSE TRUE
 Min(a, b) == IF a < b THEN a ELSE b
 
 Init == /\ target = 0 /\ prevRej = FALSE /\ fol = TRUE /\ pc = "idle" /\ k = -1 /\ written = {} /\ reads = {} /\ oreads = {}
-        /\ rej = FALSE /\ src = <<"none">> /\ ktarget = 0 /\ calls = 0
+        /\ rej = FALSE /\ src = <<"none">> /\ ktarget = 0 /\ calls = 0 /\ floor = FALSE
 
 (* entry: initial order selection from the tolerance (t0 = MAX(1, MIN(SeqLen - 2, floor(0.5 - 0.6 log10 tol)))) *)
-Begin(t0) == /\ pc = "idle"
-             /\ target' = IF target = 0 THEN t0 ELSE target
-             /\ ktarget' = target'
-             /\ pc' = "loop" /\ k' = -1 /\ written' = {} /\ reads' = {} /\ oreads' = {} /\ rej' = FALSE /\ src' = <<"none">>
-             /\ calls' = calls + 1
-             /\ UNCHANGED <<prevRej, fol>>
+Begin(t0, fl) ==
+  /\ pc = "idle" /\ floor' = fl
+  /\ target' = IF target = 0 THEN t0 ELSE target
+  /\ ktarget' = target'
+  /\ pc' = "loop" /\ k' = -1 /\ written' = {} /\ reads' = {} /\ oreads' = {} /\ rej' = FALSE /\ src' = <<"none">>
+  /\ calls' = calls + 1
+  /\ UNCHANGED <<prevRej, fol>>
 
 (* the target after a rejection at target column t: lowered by one when the lower column is cheaper *)
 Lowered(t, l8) == IF Gt1(t) /\ l8 THEN t - 1 ELSE t
@@ -58,7 +61,7 @@ Lowered(t, l8) == IF Gt1(t) /\ l8 THEN t - 1 ELSE t
 Pass(ok, cls, l8) ==
   /\ pc = "loop"
   /\ k' = k + 1
-  /\ UNCHANGED <<prevRej, fol, ktarget, calls>>
+  /\ UNCHANGED <<prevRej, fol, ktarget, calls, floor>>
   /\ IF ~ok THEN /\ rej' = TRUE /\ src' = <<"stab">> /\ pc' = "end" /\ UNCHANGED <<target, written, reads, oreads>>
      ELSE IF k' = 0 THEN UNCHANGED <<target, written, reads, oreads, rej, src, pc>>
      ELSE IF cls = "nan" THEN /\ pc' = "idle" /\ src' = <<"error">> /\ UNCHANGED <<target, written, reads, oreads, rej>>     \* status error, dt_proposed = dt
@@ -78,15 +81,25 @@ Pass(ok, cls, l8) ==
                [] d = 1  -> IF cls = "conv" THEN Stop ELSE RejectAt(target)
                [] OTHER  -> IF fol /\ cls = "conv" THEN Stop ELSE Go
 
-(* after the loop: order selection for the next step (accepted steps only), flags *)
+(* after the loop: order selection for the next step (accepted steps only), flags.
+   A step attempted at the minimal step size cannot be repeated with a smaller one: it is accepted on its error estimate
+   (as IAS15 accepts at its min_dt), and is an error when there is no extrapolated result at all (stability check).
+   AcceptAtFloor = FALSE is the controller without that rule: the same attempt is repeated for ever.                  *)
 End(a, b, c, d2) ==        \* a = L8(k-1,k)  b = L9(k,k-1)  c = L8(k-2,k-1)  d2 = L9(k, optimalIter)
   /\ pc = "end"
   /\ pc' = "idle"
-  /\ prevRej' = rej
-  /\ fol' = IF rej THEN fol ELSE FALSE
-  /\ UNCHANGED <<k, written, rej, ktarget, calls>>
-  /\ IF rej THEN UNCHANGED <<target, src, reads, oreads>>
+  /\ UNCHANGED <<k, written, ktarget, calls, floor>>
+  /\ LET atfl == floor /\ AcceptAtFloor
+         really == rej /\ ~atfl
+     IN
+     IF rej /\ atfl /\ src = <<"stab">>
+     THEN /\ src' = <<"error">> /\ UNCHANGED <<target, prevRej, fol, reads, oreads, rej>>
      ELSE
+     /\ rej' = really
+     /\ prevRej' = really
+     /\ fol' = IF really THEN fol ELSE FALSE
+     /\ IF really THEN UNCHANGED <<target, src, reads, oreads>>
+        ELSE
        LET o1 == IF k = 1 THEN (IF prevRej THEN 1 ELSE 2)
                  ELSE IF k <= target THEN (IF a THEN k - 1 ELSE IF b THEN Cap(k + 1) ELSE k)
                  ELSE LET o == IF k > 2 /\ c THEN k - 2 ELSE k - 1 IN IF d2 THEN Cap(k) ELSE o
@@ -94,17 +107,18 @@ End(a, b, c, d2) ==        \* a = L8(k-1,k)  b = L9(k,k-1)  c = L8(k-2,k-1)  d2 
                  ELSE IF k <= target THEN {k - 1, k}
                  ELSE (IF k > 2 THEN {k - 2, k - 1} ELSE {}) \cup {k, IF k > 2 /\ c THEN k - 2 ELSE k - 1}
        IN IF prevRej
-          THEN /\ target' = Min(o1, k) /\ src' = <<"min", Min(o1, k)>> /\ reads' = reads \cup r1 /\ oreads' = oreads \cup {Min(o1, k)}
+          THEN /\ target' = Min(o1, k) /\ reads' = reads \cup r1 /\ oreads' = oreads \cup {Min(o1, k)}
+               /\ src' = IF rej THEN <<"min2", target, Min(o1, k)>> ELSE <<"min", Min(o1, k)>>
           ELSE /\ target' = o1
                /\ IF o1 <= k THEN /\ src' = <<"opt", o1>> /\ reads' = reads \cup r1 /\ oreads' = oreads \cup {o1}
                   ELSE /\ reads' = reads \cup r1 \cup (IF k < target THEN {k - 1, k} ELSE {}) /\ oreads' = oreads \cup {k}
                        /\ src' = IF k < target /\ (IF k = 1 THEN FALSE ELSE b) THEN <<"scaled", k, o1 + 1>> ELSE <<"scaled", k, o1>>
 
 (* the callers: a new N-body or user ODE set (particle number changed, reb_ode_create) marks the next step as "first" *)
-NewOde == /\ pc = "idle" /\ fol' = TRUE /\ UNCHANGED <<target, prevRej, pc, k, written, reads, oreads, rej, src, ktarget, calls>>
-Reset == /\ pc = "idle" /\ target' = 0 /\ prevRej' = FALSE /\ fol' = TRUE /\ UNCHANGED <<pc, k, written, reads, oreads, rej, src, ktarget, calls>>
+NewOde == /\ pc = "idle" /\ fol' = TRUE /\ UNCHANGED <<target, prevRej, pc, k, written, reads, oreads, rej, src, ktarget, calls, floor>>
+Reset == /\ pc = "idle" /\ target' = 0 /\ prevRej' = FALSE /\ fol' = TRUE /\ UNCHANGED <<pc, k, written, reads, oreads, rej, src, ktarget, calls, floor>>
 
-Next == \/ \E t0 \in 1..SeqLen - 2 : Begin(t0)
+Next == \/ \E t0 \in 1..SeqLen - 2, fl \in BOOLEAN : Begin(t0, fl)
         \/ \E ok \in BOOLEAN, cls \in Classes, l8 \in BOOLEAN : Pass(ok, cls, l8)
         \/ \E a, b, c, d2 \in BOOLEAN : End(a, b, c, d2)
         \/ NewOde \/ Reset
@@ -115,9 +129,11 @@ TargetInRange == (calls > 0 /\ target # 0) => (target >= 1 /\ target <= SeqLen -
 KBound == pc # "idle" => (k <= ktarget + 1 /\ k <= SeqLen - 1)
 NoStaleRead == reads \subseteq written \cup {0} /\ oreads \subseteq written
 ScaledInTable == src[1] = "scaled" => (src[3] <= SeqLen - 1 /\ src[2] \in written)
-AfterReject == [][(pc = "end" /\ ~rej /\ prevRej) => (src'[1] = "min" /\ target' <= k)]_vars
-FlagsFollow == [][(pc = "end") => (prevRej' = rej /\ (fol' # fol => (~rej /\ ~fol')))]_vars
-RejectHasSource == [][(pc = "end" /\ rej) => (src' = src /\ (src = <<"stab">> \/ src = <<"opt", target>>) /\ target' = target)]_vars
+AfterReject == [][(pc = "end" /\ ~rej' /\ prevRej /\ src' # <<"error">>) => (src'[1] \in {"min", "min2"} /\ target' <= k)]_vars
+FlagsFollow == [][(pc = "end" /\ src' # <<"error">>) => (prevRej' = rej' /\ (fol' # fol => (~rej' /\ ~fol')))]_vars
+RejectHasSource == [][(pc = "end" /\ rej' /\ src' # <<"error">>) => (src' = src /\ (src = <<"stab">> \/ src = <<"opt", target>>) /\ target' = target)]_vars
+(* at the minimal step size a call never asks for the same attempt again *)
+NoRejectAtFloor == [][(pc = "end" /\ floor) => (src' = <<"error">> \/ ~prevRej')]_vars
 (* the loop cannot run for ever: every pass moves k forward and KBound stops it *)
 Progress == [][pc = "loop" /\ pc' = "loop" => k' = k + 1]_vars
 =============================================================================
